@@ -161,6 +161,27 @@ func (e *c08env) ballot(node base.LocalNode, point base.Point, no int, prev util
 	return isaac.NewINITBallot(avp, sf, nil)
 }
 
+// an ACCEPT ballot of `node` for the stage point: fact number `no` picks the new block (sync sources that disagree on it)
+func (e *c08env) acceptBallot(node base.LocalNode, point base.Point, no int, prev util.Hash, proposals map[int]util.Hash) base.Ballot {
+	if _, ok := proposals[0]; !ok {
+		proposals[0] = valuehash.RandomSHA256()
+	}
+	if _, ok := proposals[1000+no]; !ok {
+		proposals[1000+no] = valuehash.RandomSHA256()
+	}
+	fact := isaac.NewACCEPTBallotFact(point, proposals[0], proposals[1000+no], nil)
+	e.factNo[fact.Hash().String()] = no
+	sf := isaac.NewACCEPTBallotSignFact(fact)
+	_ = sf.NodeSign(node.Privatekey(), hNetworkID, node.Address())
+	// the INIT voteproof of the same point every ACCEPT ballot carries
+	ifact := isaac.NewINITBallotFact(point, prev, proposals[0], nil)
+	isf := isaac.NewINITBallotSignFact(ifact)
+	_ = isf.NodeSign(node.Privatekey(), hNetworkID, node.Address())
+	ivp := isaac.NewINITVoteproof(point)
+	ivp.SetMajority(ifact).SetSignFacts([]base.BallotSignFact{isf}).SetThreshold(base.Threshold(100)).Finish()
+	return isaac.NewACCEPTBallot(ivp, sf, nil)
+}
+
 // a suffrage-confirm INIT ballot of `node`: fact number `no` picks the expel facts (sync sources that disagree on them)
 func (e *c08env) scBallot(node base.LocalNode, point base.Point, no int, prev, proposal util.Hash, expels map[int]util.Hash) base.Ballot {
 	if _, ok := expels[no]; !ok {
@@ -264,6 +285,8 @@ func runC08(c *Ctx) error {
 		point := base.NewPoint(base.Height(int64(33+c.Intn(10))), base.Round(uint64(c.Intn(2))))
 		prev := valuehash.RandomSHA256()
 		proposals := map[int]util.Hash{}
+		accept := i%3 == 2 // every third schedule delivers ACCEPT ballots (sync sources that disagree on the new block)
+		c.Count("scheduled-stage", map[bool]string{true: "ACCEPT", false: "INIT"}[accept])
 		// facts of the deliveries: mostly different proposals, sometimes the same
 		facts := make([]int, k)
 		for j := range facts {
@@ -295,6 +318,9 @@ func runC08(c *Ctx) error {
 			if pick[0] == 'c' {
 				started[j] = true
 				bl := e.ballot(e.others[j%len(e.others)], point, facts[j], prev, proposals)
+				if accept {
+					bl = e.acceptBallot(e.others[j%len(e.others)], point, facts[j], prev, proposals)
+				}
 				finished := make(chan struct{})
 				go func() {
 					e.mimic(bl)
@@ -384,6 +410,9 @@ func runC08(c *Ctx) error {
 		for j := 0; j < k; j++ {
 			point := base.NewPoint(base.Height(int64(33+c.Intn(2))), 0)
 			bl := e.ballot(e.others[j%len(e.others)], point, 1+c.Intn(3), prev, proposals)
+			if r%3 == 2 {
+				bl = e.acceptBallot(e.others[j%len(e.others)], point, 1+c.Intn(3), prev, proposals)
+			}
 			desc = append(desc, fmt.Sprintf("%d:%d", point.Height(), e.factNo[c08factKey(bl)]))
 			wg.Add(1)
 			go func() {
